@@ -13,6 +13,7 @@ from harness import simexec as S
 from harness.common import exc_name
 
 PROPERTY = 'C05'
+ROUND_BOUND_S = 2
 LEAN_TARGETS = ['PxProofs.C05']
 THEOREMS = [
     'Px.Exec.C05_reach_inv', 'Px.Exec.C05_alive', 'Px.Exec.C05_alive_forever', 'Px.Exec.C05_reap_alive',
@@ -37,7 +38,8 @@ ASSUMPTIONS = [
 EXHAUSTIVE = {}
 EXPLANATION = ('The executor loop is modelled statement by statement over abstract works; aliveness and '
                'invariant preservation are proved for every behaviour of every work and every history; the '
-               'canary oracle checks on the real handlers that other connections complete as when alone.')
+               'canary oracle checks on the real handlers that other connections complete as when alone, that no call '
+               'blocks the worker and that every round returns promptly.')
 
 
 def impl(case):
@@ -110,6 +112,16 @@ def oracle(case):
     r = S.run_real(case)
     if r['dead'] is not None:
         return 'run-once-raised-' + exc_name(r['dead'])
+    # progress: no call that would block the worker (recv / send on a socket left in blocking or timeout
+    # mode with nothing pending), and every _run_once returns promptly (generous bound, one retry under load)
+    if r['blocked']:
+        return 'worker-blocked-in-' + r['blocked'][0][0]
+    if r['slowest'] > ROUND_BOUND_S:
+        r = S.run_real(case)
+        if r['dead'] is None and r['slowest'] > ROUND_BOUND_S:
+            return 'round-took-over-%ds' % ROUND_BOUND_S
+        if r['dead'] is not None:
+            return 'run-once-raised-' + exc_name(r['dead'])
     for i, c in enumerate(case['conns']):
         if c.get('canary'):
             sig = canary_ok(case, i, r['canary'][i])
@@ -171,6 +183,11 @@ def corpus():
             _canary('tun', 1)], 'sched': [0, 0, 1, 1, 1, 1, 1, 1, 1]},
     ]
     cs.append(D12C_WITNESS)
+    # payloads that fill the receive buffers exactly, origin keeps the connection open (a read loop that
+    # "keeps reading while the buffer was filled" would block the worker on the next recv)
+    for k, role in enumerate(S.EXACT_ROLES):
+        cs.append({'kind': 'real', 'conns': [_canary(role, 0), _canary(S.CANARY_ROLES[k % 6], 1)],
+                   'sched': [0, 1, 0, 1, 0, 1, 0, 1, 0, 0]})
     return cs
 
 
